@@ -2214,12 +2214,53 @@ XSLTEngineImpl::cloneToResultTree(
         case XalanNode::ATTRIBUTE_NODE:
             if (isElementPending() == true)
             {
-                addResultAttribute(
-                        getPendingAttributesImpl(),
-                        node.getNodeName(),
-                        node.getNodeValue(),
-                        true,
-                        locator);
+                const XalanDOMString&   thePrefix = node.getPrefix();
+                const XalanDOMString&   theNamespaceURI = node.getNamespaceURI();
+
+                const XalanDOMString* const     theBoundNamespace =
+                    thePrefix.empty() == true ? 0 : getResultNamespaceForPrefix(thePrefix);
+
+                if (thePrefix.empty() == true ||
+                    theNamespaceURI.empty() == true ||
+                    equals(thePrefix, DOMServices::s_XMLNamespace) == true ||
+                    (theBoundNamespace != 0 &&
+                     equals(*theBoundNamespace, theNamespaceURI) == true))
+                {
+                    // No namespace, a namespace declaration, or the prefix is
+                    // already bound to the namespace of the attribute...
+                    addResultAttribute(
+                            getPendingAttributesImpl(),
+                            node.getNodeName(),
+                            node.getNodeValue(),
+                            true,
+                            locator);
+                }
+                else if (theBoundNamespace == 0 ||
+                         isPendingResultPrefix(thePrefix) == false)
+                {
+                    // The prefix can be declared on the pending element...
+                    createAndAddNamespaceResultAttribute(
+                            *m_executionContext,
+                            thePrefix,
+                            theNamespaceURI);
+
+                    addResultAttribute(
+                            getPendingAttributesImpl(),
+                            node.getNodeName(),
+                            node.getNodeValue(),
+                            true,
+                            locator);
+                }
+                else
+                {
+                    // The prefix is in use for another namespace on the
+                    // pending element, so the attribute needs a new one...
+                    createFixedUpResultAttribute(
+                            *m_executionContext,
+                            node.getLocalName(),
+                            theNamespaceURI,
+                            node.getNodeValue());
+                }
             }
             else
             {
